@@ -241,7 +241,7 @@ def _equality_routines(ctx: Ctx) -> Set[str]:
 
 
 def r5_5(ctx: Ctx) -> RuleResult:
-    rr = RuleResult("R5.5", "copy inserts a deep copy of the source value", floor=3)
+    rr = RuleResult("R5.5", "copy inserts a deep copy of the source value", floor=1)  # one per use of the source value
     cls = [c for c in op_classes(ctx) if op_name(ctx, c) == "copy"]
     if len(cls) != 1:
         raise AnalysisError("R5.5: the copy operation class was not found")
